@@ -146,10 +146,19 @@ func worker(results chan<- result, files <-chan string, wg *sync.WaitGroup) {
 		f, err := os.Open(file)
 		if err != nil {
 			res.err = err
+			results <- res
+			continue
 		}
-		info, _ := f.Stat() //nolint: errcheck // The file is already open here so we can ignore the error
+		info, err := f.Stat()
+		if err != nil {
+			f.Close()
+			res.err = err
+			results <- res
+			continue
+		}
 		// Skip directories
 		if info.IsDir() {
+			f.Close()
 			continue
 		}
 		hash := sha256.New()
